@@ -1,7 +1,60 @@
 /-
   Rtp/Props/C17.lean — C17: fixed-size header-extension payload codecs are bit-exact and total.
   Property theorems only; helper lemmas live in Rtp/Proofs/ExtCodecs.lean.
+
+  Per codec X two main theorems, both about the very predicates the driver evaluates on the real code
+  (Rtp/Pred/C17.lean), for ALL values / receivers / byte strings (no enumeration, no size bound):
+    c17_X_marshal    ∀ v prev,          marshalOk XSpec v (modelM X v prev)
+        in-range v: Marshal = the specification's bit layout, and Unmarshal of it into any receiver
+        `prev` returns v;  out-of-range v: Marshal returns an error
+    c17_X_unmarshal  ∀ prev hist raw,   unmarshalOk XSpec raw (modelU X prev hist raw)
+        |raw| ≥ size: ok, fields = the specified fields of the first `size` bytes (a function of `raw`
+        alone: neither `prev` nor the earlier inputs `hist` occur in it); shorter: error; never panic
+  followed by spelled-out corollaries.
 -/
-import Rtp.Pred.C17
+import Rtp.Proofs.ExtCodecs
 namespace Rtp.Props.C17
+open Rtp Rtp.Model.Ext Rtp.Pred.C17 Rtp.Spec.Ext Rtp.Proofs.Ext
+
+/-! ### AudioLevel -/
+
+theorem c17_audio_marshal (v prev : AudioLevel) : marshalOk audioSpec v (modelM audio v prev) = true :=
+  audio_marshal v prev
+
+theorem c17_audio_unmarshal (prev : AudioLevel) (hist : List Bytes) (raw : Bytes) :
+    unmarshalOk audioSpec raw (modelU audio prev hist raw) = true :=
+  audio_unmarshal (audio.history prev hist) raw
+
+/-- non-vacuity: level 5 with voice activity is `0x85`, and comes back from a dirty receiver -/
+example : modelM audio ⟨5, true⟩ ⟨99, false⟩ = ⟨.ok [0x85], some ⟨.ok (), ⟨5, true⟩⟩⟩ := by decide
+example : audioSpec.inRange ⟨5, true⟩ = true ∧ render (audioLevel true 5) = [0x85] := by decide
+example : modelU audio ⟨99, true⟩ [[0xFF]] [0x05, 0xAA] = ⟨.ok (), ⟨5, false⟩⟩ ∧
+    audioSpec.decode [0x05, 0xAA] = some ⟨5, false⟩ := by decide
+
+/-! ### TransportCC -/
+
+theorem c17_tcc_marshal (v prev : TransportCC) : marshalOk tccSpec v (modelM tcc v prev) = true :=
+  tcc_marshal v prev
+
+theorem c17_tcc_unmarshal (prev : TransportCC) (hist : List Bytes) (raw : Bytes) :
+    unmarshalOk tccSpec raw (modelU tcc prev hist raw) = true :=
+  tcc_unmarshal (tcc.history prev hist) raw
+
+example : modelM tcc ⟨0xABCD⟩ ⟨7⟩ = ⟨.ok [0xAB, 0xCD], some ⟨.ok (), ⟨0xABCD⟩⟩⟩ := by decide
+example : modelU tcc ⟨7⟩ [] [0x12, 0x34, 0x56] = ⟨.ok (), ⟨0x1234⟩⟩ ∧ modelU tcc ⟨7⟩ [] [0x12] = ⟨.err .other, ⟨7⟩⟩ := by
+  decide
+
+/-! ### PlayoutDelay -/
+
+theorem c17_playout_marshal (v prev : PlayoutDelay) :
+    marshalOk playoutSpec v (modelM playout v prev) = true :=
+  playout_marshal v prev
+
+theorem c17_playout_unmarshal (prev : PlayoutDelay) (hist : List Bytes) (raw : Bytes) :
+    unmarshalOk playoutSpec raw (modelU playout prev hist raw) = true :=
+  playout_unmarshal (playout.history prev hist) raw
+
+example : modelM playout ⟨0xABC, 0x123⟩ ⟨1, 2⟩ = ⟨.ok [0xAB, 0xC1, 0x23], some ⟨.ok (), ⟨0xABC, 0x123⟩⟩⟩ := by decide
+example : (modelM playout ⟨4096, 0⟩ ⟨1, 2⟩).out = .err .other ∧ playoutSpec.inRange ⟨4096, 0⟩ = false := by decide
+
 end Rtp.Props.C17
